@@ -196,6 +196,37 @@ Definition gen_valid (self : pyindex) : bool :=
 Definition gen_get_measurements (self : pyindex) : list str :=
   (map fst (_measurements self)).
 
+Definition gen_get_field_keys (self : pyindex) (measurement : option str) : list str :=
+  if (negb (opt_truthy measurement))
+  then ((map fst (_fields self)))
+  else (let rst := [] in
+  if (negb (d_has (opt_str measurement) (_measurements self)))
+  then (rst)
+  else (let measurement_items := (d_get [] (opt_str measurement) (_measurements self)) in
+  let rst := fold_left (fun rst '(field_key, items) =>
+    let rst := (if (nonempty_list (set_inter measurement_items (map (fun i => (fst i)) items))) then (let rst := (set_add field_key rst) in
+  rst) else (rst)) in
+  rst)
+    (_fields self) rst in
+  rst)).
+
+Definition gen_get_tag_keys (self : pyindex) (measurement : option str) : list str :=
+  if (negb (opt_truthy measurement))
+  then ((map fst (_tags self)))
+  else (let rst := [] in
+  if (negb (d_has (opt_str measurement) (_measurements self)))
+  then (rst)
+  else (let measurement_items := (d_get [] (opt_str measurement) (_measurements self)) in
+  let rst := fold_left (fun rst '(tag_key, tag_values) =>
+    let rst := fold_left (fun rst items =>
+    let rst := (if (nonempty_list (set_inter measurement_items items)) then (let rst := (set_add tag_key rst) in
+  rst) else (rst)) in
+  rst)
+    (map snd tag_values) rst in
+  rst)
+    (_tags self) rst in
+  rst)).
+
 Definition gen_get_timestamps (self : pyindex) (measurement : option str) : list Z :=
   if (negb (opt_truthy measurement))
   then (let zipped := (map (fun '(i, j) => (i, j)) (combine (_timestamps self) (_storage_pos_sorted_by_ts self))) in
